@@ -588,6 +588,26 @@ class Interp:
             return not t[1]
         return is_const(t) and t[1] in ((), "")
 
+    def _keys_source(self, it):
+        if it[0] == "call" and it[1] == "builtins.enumerate" and len(it[2]) == 1 and not it[3]:
+            inner = self._keys_source(it[2][0])
+            return None if inner is None else ("call", it[1], (inner,), (), it[4] if len(it) > 4
+                                              else None)
+        if it[0] != "dictobj":
+            return None
+        h = self.heap[it[1]]
+        if h["items"] or len(h["dyn"]) != 1 or h.get("const"):
+            return None
+        k_, v_, pc_ = h["dyn"][0]
+        pc0 = tuple(h.get("pc0", ()))
+        if tuple(pc_[:len(pc0)]) != pc0:
+            return None
+        rel = tuple(c for c in pc_[len(pc0):] if c[0] != "fact")
+        if len(rel) == 1 and rel[0][0] == "inloop" and isinstance(k_, tuple) and k_[0] == "elem" \
+                and k_[2] == rel[0][1]:
+            return k_[1]
+        return None
+
     def _list_segments(self, it):
         """[("elem", term) | ("iter", iterable term)] when `it` is a list object assembled from
         more than one source (so that no single producer describes it); None otherwise"""
@@ -692,6 +712,11 @@ class Interp:
         lid = self.new_id()
         it0 = it
         it, view = self._mapping_view(it)
+        # a dict filled with one entry per element of IT, under the element itself as key, has
+        # IT's elements as keys, in IT's order: iterating it (or enumerating it) is iterating IT
+        ks = self._keys_source(it)
+        if ks is not None:
+            it = ks
         self.loops[lid] = {"iter": it, "func": act.fi.fq, "lineno": s.lineno,
                            "kind": "for", "target": ast.unparse(s.target), "pc": st.pc}
         assigned = self._assigned_names(s.body) - self._assigned_names([_expr_stmt(s.target)])
@@ -898,6 +923,11 @@ class Interp:
                     h["items"][idx[1]] = v
                 else:
                     h["dyn"].append((idx, v, st.pc))
+                    # `if k not in D: D[k] = E` - a memo entry: a later D[k] (same k) is E
+                    guard = ("cmp", "notin", idx, base)
+                    if h["kind"] == "dict" and v[0] not in ("dictobj", "listobj", "new", "setlit") \
+                            and (guard in rel or ("not", ("cmp", "in", idx, base)) in rel):
+                        h.setdefault("memo", {})[len(h["dyn"]) - 1] = (idx, v)
             return
         raise AnalysisError(f"unsupported assignment target at {act.fi.module.path}:{node.lineno}")
 
@@ -1161,6 +1191,14 @@ class Interp:
     def _e_Subscript(self, e, st, act):
         base = self._eval(e.value, st, act)
         idx = self._eval_index(e.slice, st, act)
+        if base[0] == "dictobj" and self.heap[base[1]].get("memo"):
+            # a look-up table filled on demand (`if k not in D: D[k] = f(k)` and nothing else):
+            # D[k] for the key it was just filled for is f(k)
+            h = self.heap[base[1]]
+            if not h["items"] and len(h["memo"]) == len(h["dyn"]):
+                for k_, v_ in h["memo"].values():
+                    if k_ == idx:
+                        return v_
         if is_const(idx) and isinstance(idx[1], str) and (base, ("key", idx[1])) in st.ov:
             return self._under(st.ov[(base, ("key", idx[1]))], st.pc)
         return self._getitem(base, idx)
